@@ -27,6 +27,34 @@ NOT_DECIDED = ("that arbitrary sheets are grouped correctly at run time beyond t
 ASSUMPTIONS = ["representative rows stand for their shape class (complete / sparse / shared list / extra columns)", "csv.writer.writerow is positional"]
 
 
+def has_external_choices_obligations(ctx, rule, rid):
+    """The decision whether itemsets.csv is produced: true iff an external select occurs anywhere in the JSON form."""
+    he = ctx.func("pyxform.utils:has_external_choices", rid)
+    it = ctx.interp(rid)
+    sel = ctx.consts.get("pyxform.aliases", "select", rid)
+    ext_type = sel.get("select_one_external")
+    for desc, js, want in (("nested external select", {"type": "survey", "children": [{"type": "group", "children": [{"type": ext_type, "name": "q"}]}]}, True),
+                           ("no external select", {"type": "survey", "children": [{"type": "select one", "name": "q"}]}, False),
+                           ("external select in a group that has bind / control / translated label before its children",
+                            {"type": "survey", "name": "data", "children": [{"type": "text", "name": "a", "bind": {"required": "yes"}, "label": {"en": "A"}},
+                                                                          {"type": "group", "name": "g", "bind": {"relevant": "${a} = 1"}, "control": {"appearance": "field-list"}, "label": {"en": "G", "fr": "G"},
+                                                                           "children": [{"type": "text", "name": "b"}, {"type": ext_type, "name": "q", "itemset": "l"}]}]}, True),
+                           ("external select after a plain select with choices", {"type": "survey", "choices": {"l": [{"name": "x", "label": "X"}]},
+                                                                                 "children": [{"type": "select one", "name": "s", "choices": [{"name": "x"}]}, {"type": "repeat", "name": "r", "children": [{"type": ext_type, "name": "q"}]}]}, True),
+                           ("containers everywhere, no external select", {"type": "survey", "choices": {"l": [{"name": "x"}]}, "children": [{"type": "group", "bind": {"relevant": "1"}, "children": [{"type": "text", "name": "b", "bind": {"x": "y"}}]}]}, False)):
+        it.reset([])
+        rule.check(it.call_function(he, [js], {}, None, he.node) is want, f"has_external_choices[{desc}]", f"-> {want} (uses the type the row loop assigns)", he.loc())
+
+
+def _ix_hook(i, a, k, n):
+    """Stand-in for Survey.insert_xpaths(text, context, use_current=False, ...): `S[text]`, plus `@cur` when the caller asks
+    for current()-prefixed relative paths (needed inside a predicate over a secondary instance)."""
+    pos = [x for x in a if not (isinstance(x, Obj) and x.name == "survey")]
+    text = k.get("text", pos[0] if pos else None)
+    use_current = k.get("use_current", pos[2] if len(pos) > 2 else False)
+    return "S[" + str(text) + "]" + ("@cur" if use_current is True else "")
+
+
 def run(ctx):
     repo = ctx.repo
     rules = []
@@ -94,6 +122,9 @@ def run(ctx):
         r2.check(ok and shape == want and all(i.tag == "item" for i in items), f"_generate_static_instances[requires_itext={req}]",
                  "one item per choice in order: [itextId] name [label] extra columns in column order", gsi.loc(), why_fail=repr(shape))
         r2.check(info.get("name") == "lst" and info.get("type") == "choice" and info.get("src") is None, f"_generate_static_instances[requires_itext={req}]:info", "instance is registered under the list name", gsi.loc())
+    # extra columns survive the header validator unless their header is blank or contains a space
+    from .c01 import choice_header_obligations
+    choice_header_obligations(ctx, r2, "C09.R2")
     rules.append(r2)
 
     # ------------------------------------------------------------------ R3
@@ -221,7 +252,7 @@ def run(ctx):
     def run_bx(**attrs):
         CTRL = NodeVal("select1")
         hooks = {"fnname:node": node_hook, "fnname:_build_xml": lambda i, a, k, n: CTRL,
-                 "fnname:insert_xpaths": lambda i, a, k, n: "S[" + str([x for x in a if isinstance(x, str)][0]) + "]"}
+                 "fnname:insert_xpaths": _ix_hook}
         it = ctx.interp("C09.R5", hooks=hooks)
         it.reset([])
         base = dict(bind={"type": "string"}, itemset="lst", choice_filter=None, parameters=None, choices=None, label="L")
@@ -237,12 +268,12 @@ def run(ctx):
 
     cases = [
         ("plain", {}, ("instance('lst')/root/item", [("value", "name"), ("label", "label")])),
-        ("filter", {"choice_filter": "region=${r}"}, ("instance('lst')/root/item[S[region=${r}]]", [("value", "name"), ("label", "label")])),
+        ("filter", {"choice_filter": "region=${r}"}, ("instance('lst')/root/item[S[region=${r}]@cur]", [("value", "name"), ("label", "label")])),
         ("randomize", {"parameters": {"randomize": "true"}}, ("randomize(instance('lst')/root/item)", [("value", "name"), ("label", "label")])),
         ("randomize+seed", {"parameters": {"randomize": "true", "seed": "42"}}, ("randomize(instance('lst')/root/item, 42)", [("value", "name"), ("label", "label")])),
         ("randomize+seed ref", {"parameters": {"randomize": "true", "seed": "${s}"}}, ("randomize(instance('lst')/root/item, S[${s}])", [("value", "name"), ("label", "label")])),
         ("randomize=false", {"parameters": {"randomize": "false", "seed": "42"}}, ("instance('lst')/root/item", [("value", "name"), ("label", "label")])),
-        ("filter+randomize", {"choice_filter": "a=1", "parameters": {"randomize": "true"}}, ("randomize(instance('lst')/root/item[S[a=1]])", [("value", "name"), ("label", "label")])),
+        ("filter+randomize", {"choice_filter": "a=1", "parameters": {"randomize": "true"}}, ("randomize(instance('lst')/root/item[S[a=1]@cur])", [("value", "name"), ("label", "label")])),
         ("csv file value/label", {"itemset": "c.csv", "parameters": {"value": "code", "label": "title2"}}, ("instance('c')/root/item", [("value", "code"), ("label", "title2")])),
         ("xml file", {"itemset": "c.xml", "parameters": {}}, ("instance('c')/root/item", [("value", "name"), ("label", "label")])),
         ("geojson defaults", {"itemset": "g.geojson", "parameters": {}}, ("instance('g')/root/item", [("value", "id"), ("label", "title")])),
@@ -276,10 +307,10 @@ def run(ctx):
     # external (input) select: query on its own list with its own filter
     iq = repo.cls("pyxform.question:InputQuestion")
     ibx = iq.methods["build_xml"]
-    for desc, cf, want in (("filter", "state=${s}", "instance('cities')/root/item[S[state=${s}]]"), ("no filter", None, "instance('cities')/root/item")):
+    for desc, cf, want in (("filter", "state=${s}", "instance('cities')/root/item[S[state=${s}]@cur]"), ("no filter", None, "instance('cities')/root/item")):
         CTRL = NodeVal("input")
         hooks = {"fnname:node": node_hook, "fnname:_build_xml": lambda i, a, k, n, C=CTRL: C,
-                 "fnname:insert_xpaths": lambda i, a, k, n: "S[" + str([x for x in a if isinstance(x, str)][0]) + "]"}
+                 "fnname:insert_xpaths": _ix_hook}
         it = ctx.interp("C09.R5", hooks=hooks)
         it.reset([])
         el = _mk(ctx, iq, "q", query="cities", choice_filter=cf)
@@ -339,7 +370,11 @@ def run(ctx):
             ("header given, sparse row", [{"list_name": None, "name": None, "label": None, "region": None}],
              [{"list_name": "s", "name": "a", "label": "A", "region": "r1"}, {"list_name": "s", "name": "b", "region": "r2"}]),
             ("no header (dict input), sparse rows", None,
-             [{"list_name": "s", "name": "a", "label": "A"}, {"list_name": "s", "name": "b", "region": "r2"}])):
+             [{"list_name": "s", "name": "a", "label": "A"}, {"list_name": "s", "name": "b", "region": "r2"}]),
+            ("list column spelled `list name`", [{"list name": None, "name": None, "label": None}],
+             [{"list name": "s", "name": "a", "label": "A"}, {"list name": "t", "name": "b", "label": "B"}]),
+            ("list column spelled `List_Name`, extra column `Région`", [{"List_Name": None, "name": None, "Région": None}],
+             [{"List_Name": "s", "name": "a", "Région": "x"}, {"List_Name": "s", "name": "b"}])):
         written = []
         writer = Obj(None, {"writerow": lambda i, a, k, n: written.append(list(i.iterate(a[0], n)))}, name="csvwriter")
         hooks = {"ext:csv.writer": lambda i, a, k, n: writer, "ext:io.StringIO": lambda i, a, k, n: Obj(None, {"getvalue": lambda i2, a2, k2, n2: "CSV"}, name="sio")}
@@ -359,18 +394,14 @@ def run(ctx):
             for k in row:
                 if k not in allkeys:
                     allkeys.append(k)
+        # nothing the author wrote is lost: every non-empty cell of a row is in the written row
+        lost = [(ri, k_, v_) for ri, (row, w) in enumerate(zip(rows, written[1:])) for k_, v_ in row.items() if v_ not in (None, "") and v_ not in w]
+        r7.check(ok and not lost, f"external_choices_to_csv[{desc}]:no cell lost", "every non-empty cell of the sheet is in the csv row", ec.loc(), why_fail=f"lost {lost[:3]} (header {hdr})")
         r7.check(ok and cells_ok and set(hdr) >= set(allkeys), f"external_choices_to_csv[{desc}]", "each data row has one cell per header column and each cell sits under its own header", ec.loc(),
                  why_fail=f"header={hdr} rows={written[1:]}")
         if header is None:
             r7.check(hdr == allkeys, f"external_choices_to_csv[{desc}]:header order", "the fallback header is the ordered union of row keys (deterministic)", ec.loc(), why_fail=repr(hdr))
-    he = ctx.func("pyxform.utils:has_external_choices", "C09.R7")
-    it = ctx.interp("C09.R7")
-    sel = ctx.consts.get("pyxform.aliases", "select", "C09.R7")
-    ext_type = sel.get("select_one_external")
-    for desc, js, want in (("nested external select", {"type": "survey", "children": [{"type": "group", "children": [{"type": ext_type, "name": "q"}]}]}, True),
-                           ("no external select", {"type": "survey", "children": [{"type": "select one", "name": "q"}]}, False)):
-        it.reset([])
-        r7.check(it.call_function(he, [js], {}, None, he.node) is want, f"has_external_choices[{desc}]", f"-> {want} (uses the type the row loop assigns)", he.loc())
+    has_external_choices_obligations(ctx, r7, "C09.R7")
     cv = ctx.func("pyxform.xls2xform:convert", "C09.R7")
     calls = [c for c in walk_own(cv.node) if isinstance(c, ast.Call) and call_name(c) == "external_choices_to_csv"]
     r7.check(len(calls) == 1 and guard_texts(calls[0], stop=cv.node) == ["has_external_choices(json_struct=pyxform_data)"], "convert:itemsets", "itemsets are produced iff the form uses an external select", cv.loc())
